@@ -194,7 +194,7 @@ def verifyNameError (H : HashFn) (records : List Nsec3) (signer : Name) (q : Nam
     if ring.cls != qclass then .error .missing else
     match validateCE (closestEncloser H ring q) with
     | .error e => .error e
-    | .ok (k, m) =>
+    | .ok (k, _) =>
       match findCoverer H ring (nextCloser q k) with
       | .error e => .error e
       | .ok nc =>
